@@ -12,6 +12,8 @@ Decided, for every archive at once, on the call sites of the arch-layer setters 
  R5 order      a file's time is set only after a successful decode (which lies behind the fclose of the output stream);
  R6 mkdir      a directory is created 0700 when permissions are recorded (to be widened afterwards, R3) and 0777 otherwise;
  R7 envelope   a Mac member is examined for a MacBinary envelope whenever its length is >= 128 (the size of such a header);
+ C15.R7/R7b   the reader advances the input exactly after START / NORMAL entries (no member dropped or repeated around a re-presented directory)
+               and a directory ends at the first entry whose path does not begin with its whole path (shared with C15);
  R8 wildcard   match_glob conforms to the glob transducer ('*' any run including the empty one, '?' one byte, bytes compared as stored).
 These are necessary conditions of "its recorded modification time and, when recorded, its Unix permission bits [and owner]".
 NOT decided (stated plainly): file contents (C01-C04, C07), path construction and parent directories, the order in which directories get
@@ -258,4 +260,7 @@ def run(tier, seed):
                 for k in ("star-advance", "star-match", "one", "mismatch", "end"):
                     for _ in range(stats.get(k, 0)):
                         rep.ok(rid, "match_glob: %s path conforms" % k, None, "%s:%s" % (mg.file, mg.line))
+        # ---- C15.R7*: every member reaches extraction once, directories are completed at the right point ------------------------------
+        from .c15 import advance_rules
+        advance_rules(rep, ctx, mod, prefix="C15.")
     return rep.finish(seed)
